@@ -164,7 +164,7 @@ where
     ///
     /// Assumes that
     /// - there is at least one operand,
-    /// - there are at most `KIND_COUNT` operands and values of each kind, and
+    /// - there are less than `KIND_COUNT` operands and values of each kind, and
     /// - the count of operands and values is at most `ENTRY_CAP`.
     #[inline]
     fn get<const E: usize, const N: usize>(
@@ -176,10 +176,10 @@ where
         // These conditions are ensured when called by
         // `DMApplyCache::get_with_numeric()`
         debug_assert_ne!(operands.0.len() + operands.1.len(), 0);
-        debug_assert!(operands.0.len() <= KIND_COUNT);
-        debug_assert!(operands.1.len() <= KIND_COUNT);
-        debug_assert!(E <= KIND_COUNT);
-        debug_assert!(N <= KIND_COUNT);
+        debug_assert!(operands.0.len() < KIND_COUNT);
+        debug_assert!(operands.1.len() < KIND_COUNT);
+        debug_assert!(E < KIND_COUNT);
+        debug_assert!(N < KIND_COUNT);
         debug_assert!(operands.0.len() + operands.1.len() + E + N <= ENTRY_CAP);
 
         #[cfg(feature = "statistics")]
@@ -235,7 +235,7 @@ where
     ///
     /// Assumes that
     /// - there is at least one operand,
-    /// - there are at most `KIND_COUNT` operands and values of each kind, and
+    /// - there are less than `KIND_COUNT` operands and values of each kind, and
     /// - the count of operands and values is at most `ENTRY_CAP`.
     #[inline(always)]
     fn set(
@@ -245,10 +245,10 @@ where
         values: (&[Borrowed<M::Edge>], &[u32]),
     ) {
         debug_assert_ne!(operands.0.len() + operands.1.len(), 0);
-        debug_assert!(operands.0.len() <= KIND_COUNT);
-        debug_assert!(operands.1.len() <= KIND_COUNT);
-        debug_assert!(values.0.len() <= KIND_COUNT);
-        debug_assert!(values.1.len() <= KIND_COUNT);
+        debug_assert!(operands.0.len() < KIND_COUNT);
+        debug_assert!(operands.1.len() < KIND_COUNT);
+        debug_assert!(values.0.len() < KIND_COUNT);
+        debug_assert!(values.1.len() < KIND_COUNT);
         debug_assert!(
             operands.0.len() + operands.1.len() + values.0.len() + values.1.len() <= ENTRY_CAP
         );
@@ -398,10 +398,10 @@ where
         let total_operands = operands.0.len() + operands.1.len();
         if total_operands == 0
             || total_operands + (N + E) > ENTRY_CAP
-            || operands.0.len() > KIND_COUNT
-            || operands.1.len() > KIND_COUNT
-            || N > KIND_COUNT
-            || E > KIND_COUNT
+            || operands.0.len() >= KIND_COUNT
+            || operands.1.len() >= KIND_COUNT
+            || N >= KIND_COUNT
+            || E >= KIND_COUNT
         {
             return None;
         }
@@ -421,10 +421,10 @@ where
         let total_operands = operands.0.len() + operands.1.len();
         if total_operands == 0
             || total_operands + (values.0.len() + values.1.len()) > ENTRY_CAP
-            || operands.0.len() > KIND_COUNT
-            || operands.1.len() > KIND_COUNT
-            || values.0.len() > KIND_COUNT
-            || values.1.len() > KIND_COUNT
+            || operands.0.len() >= KIND_COUNT
+            || operands.1.len() >= KIND_COUNT
+            || values.0.len() >= KIND_COUNT
+            || values.1.len() >= KIND_COUNT
         {
             return;
         }
